@@ -159,6 +159,7 @@ class Gen(object):
         """An exact dyadic value aimed at `fmt`."""
         r = self.rng
         s, nw, nf = fmt
+        self._nf = nf
         lo, hi = Q.bounds(s, nw)
         extra = 0 if nw > 48 else r.choice([0, 1, 2, 3])
         if kind is None:
@@ -241,6 +242,9 @@ class Gen(object):
                 return ['s', num, exp]
             return ['f', num, exp]
         k = r.random()
+        if allow_str and k < 0.05 and self.p.prop in ('C04', 'C02') and abs(num).bit_length() <= 28 and -14 <= exp <= 0 \
+                and 0 <= getattr(self, '_nf', -1) <= 20:
+            return ['d', num, exp]        # a decimal.Decimal (scalar inputs only; few digits: stays exact)
         if k < 0.7:
             return ['f', num, exp]
         if k < 0.85:
